@@ -11,7 +11,8 @@ NAME_START = list("abcdefgxyzABCXYZ_") + ["é", "Ж", "湖", "ñ"]
 NAME_CHARS = NAME_START + list("0123456789-.")
 PREFIXES = ["eml", "stmml", "xsi", "p", "q", "ns1", "é"]
 URIS = ["https://eml.ecoinformatics.org/eml-2.2.0", "http://www.xml-cml.org/schema/stmml-1.2", "http://www.w3.org/2001/XMLSchema-instance",
-        "urn:x:1", "urn:x:2", "http://example.org/ns?a=1&b=2", "u3", "http://example.org/~q"]
+        "urn:x:1", "urn:x:2", "http://example.org/ns?a=1&b=2", "u3", "http://example.org/~q",
+        "http://purl.org/dc/terms", "http://purl.org/dc/terms/", "HTTP://purl.org/dc/terms", "http://purl.org/dc/terms#"]
 EML_NAMES = ["eml", "dataset", "title", "creator", "para", "markup", "literalLayout", "objectName", "attributeName", "section", "value"]
 # XML 1.0 characters except CR; control characters are illegal
 TEXT_CHARS = ["a", "b", "c", "Z", "0", "9", " ", " ", " ", "\t", "\n", "\xa0", "<", ">", "&", "\"", "'", "é", "ß", "Ж", "湖", "\U0001F600",
@@ -37,6 +38,9 @@ def text(rng, maxlen=14, chars=TEXT_CHARS, p_blank=0.2):
         # exactly at and around the sizes that buffers and small-integer caches care about
         return rng.choice(["a", "é", "\U0001F600", "a b "]) * rng.choice([255, 256, 257, 1024, 4096])
     if rng.random() < p_blank:
+        if rng.random() < 0.15:
+            # blank-looking text made of other space characters (narrow no-break, em, ideographic, thin): not white space for XML
+            return "".join(rng.choice([" ", "\u202f", "\u2003", "\u3000", "\u2009", "\xa0"]) for _ in range(rng.randint(1, 4)))
         return "".join(rng.choice([" ", " ", "\t", "\n", "\xa0"] if "\n" in chars else [" ", "\xa0"]) for _ in range(rng.randint(1, 5)))
     return "".join(rng.choice(chars) for _ in range(rng.randint(1, maxlen)))
 
